@@ -37,8 +37,14 @@ def run(repo, rep, tier):
                       "generated local (nested on-error must not clobber it)")
     rep.rule("R13.3", "fallback element is built from static attributes only "
                       "and OnError is the outermost wrapper of the element")
+    rep.rule("R13.5", "error.lineno / error.offset are the location of the "
+                      "failing expression's token in the text that was "
+                      "tokenised (source identity, shared with C12)")
     rep.rule("R13.4", "handler plumbing: option -> render kwarg -> macro "
                       "prologue -> handler fragment, same key")
+
+    from .c12 import _source_identity
+    _source_identity(repo, rep, rule="R13.5")
 
     func = repo.func(ANCHOR)
     res = L.emission(repo, ANCHOR)
